@@ -118,8 +118,8 @@ def default_extra(prog):
     return list(EXTRA_ALWAYS)
 
 
-def run(prop, families, level, explanation, optsets=None, programs=None, extra=None, post=None, handle=None, trusted=(), assumptions=(), fns=()):
-    rep = Report(prop, level)
+def run(prop, families, level, explanation, optsets=None, programs=None, extra=None, post=None, handle=None, trusted=(), assumptions=(), fns=(), rep=None):
+    rep = rep or Report(prop, level)
     rep.fn(*fns)
     rep.assume("csem", "smt", "arith", "hooks", *assumptions)
     rep.trust("vf/csem: parser + symbolic semantics of the emitted C subset", "vf/amach.py: abstract machine (specification) over the DFA objects", *trusted)
